@@ -44,10 +44,13 @@ func mnemonicEntropy(phrase string) []byte {
 	return m.Sum(nil)
 }
 
-// MnemonicIsBasicSeed is the version check a phrase has to pass.
-func MnemonicIsBasicSeed(phrase string) bool {
-	return PBKDF2SHA512(mnemonicEntropy(phrase), []byte("TON seed version"), 100000/256, 64)[0] == 0
+// MnemonicVersionByte is the byte the version check looks at; a phrase is a basic seed when it is zero.
+func MnemonicVersionByte(phrase string) byte {
+	return PBKDF2SHA512(mnemonicEntropy(phrase), []byte("TON seed version"), 100000/256, 64)[0]
 }
+
+// MnemonicIsBasicSeed is the version check a phrase has to pass.
+func MnemonicIsBasicSeed(phrase string) bool { return MnemonicVersionByte(phrase) == 0 }
 
 // MnemonicToKey derives the key pair of a phrase (the caller checks MnemonicIsBasicSeed separately).
 func MnemonicToKey(phrase string) ed25519.PrivateKey {
